@@ -486,7 +486,7 @@ class PairedDemultiplexer(PairedEndStep, HasStatistics, HasFilterStatistics):
         return self._filtered
 
 
-class CombinatorialDemultiplexer(PairedEndStep, HasStatistics):
+class CombinatorialDemultiplexer(PairedEndStep, HasStatistics, HasFilterStatistics):
     """
     Demultiplex paired-end reads depending on which adapter matches, taking into account
     matches on R1 and R2.
@@ -516,6 +516,7 @@ class CombinatorialDemultiplexer(PairedEndStep, HasStatistics):
             outfiles,
         )
         self._statistics = ReadLengthStatistics()
+        self._filtered = 0
 
     @staticmethod
     def _open_writers(
@@ -557,7 +558,15 @@ class CombinatorialDemultiplexer(PairedEndStep, HasStatistics):
         if key in self._writers:
             self._statistics.update2(read1, read2)
             self._writers[key].write(read1, read2)
+        else:
+            self._filtered += 1
         return None
+
+    def descriptive_identifier(self) -> str:
+        return "discard_untrimmed"
 
     def get_statistics(self) -> ReadLengthStatistics:
         return self._statistics
+
+    def filtered(self) -> int:
+        return self._filtered
